@@ -318,7 +318,11 @@ def owner(unit, f):
             return "C09"
         return "C04"
     if unit == "range_parse":
-        return "C04" if f.kind in SAFETY_KINDS else "C03"
+        # a panic in the range parser is both a crash of the server (C04) and a parser that does not report an error (C20);
+        # the whole-file clauses are what C02 needs from it
+        if f.kind in SAFETY_KINDS:
+            return ("C04", "C20")
+        return ("C03", "C02")
     if unit == "response_gen" and f.fn == "Response::generate":
         return "C15"
     if unit == "multipart":
@@ -331,7 +335,7 @@ def owner(unit, f):
 def counts_for(pid):
     def flt(unit, f):
         o = owner(unit, f)
-        return o is None or o == pid
+        return o is None or o == pid or (isinstance(o, tuple) and pid in o)
     return flt
 
 
@@ -375,9 +379,9 @@ PROPS = {
     "C20": {
         "units": ["response_parse", "range_parse", "base64_decode", "request_parse", "multipart"],
         "level": "proof",
-        "falsifier": ["parsers"],
+        "falsifier": ["parsers", "range"],
         "always_explore": ["parsers"],
-        "case_prefixes": ["c20_"],
+        "case_prefixes": ["c20_", "panic"],
         "counts": counts_for("C20"),
         "samples": [
             "Response::parse_raw_response_via_cursor / termination / decreases rem(old(cursor)).len()",
